@@ -278,6 +278,37 @@ def Obj.setUnits (o : Obj) (u : Option U) : Except Rej Obj :=
     own units. -/
 def Obj.withoutUnits (o : Obj) : Obj := { o with units := none }
 
+/-! ### the cached derivative-free view and unit changes (qube.py:1354-1378, 1773-1793)
+
+`x.wod` is a shallow clone without derivatives that carries its own copy of the units and is kept in the
+object's cache; all derivative arithmetic goes through it.  `set_units` must therefore drop the cache. -/
+
+/-- an object with its cache entry 'wod' -/
+structure CObj where
+  obj : Obj
+  wodCache : Option Leaf
+  deriving DecidableEq, Repr, Inhabited
+
+/-- qube.py:1354-1378 the `wod` property: the view handed out, and the object with its cache filled -/
+def CObj.wod (c : CObj) : Leaf × CObj :=
+  if c.obj.derivs.isEmpty then (⟨c.obj.vals, c.obj.units⟩, c)            -- `return self`
+  else match c.wodCache with
+    | some w => (w, c)
+    | none => (⟨c.obj.vals, c.obj.units⟩, { c with wodCache := some ⟨c.obj.vals, c.obj.units⟩ })
+
+/-- anything that materialises the view (`x.wod`, a product, `norm()`, `dot()` …) -/
+def CObj.touch (c : CObj) : CObj := c.wod.2
+
+def CObj.touches : Nat → CObj → CObj
+  | 0, c => c
+  | n + 1, c => CObj.touches n c.touch
+
+/-- qube.py:1773-1793 `set_units`, including `self._cache_.clear()` -/
+def CObj.setUnits (c : CObj) (u : Option U) : Except Rej CObj :=
+  match c.obj.setUnits u with
+  | .error e => .error e
+  | .ok o => .ok ⟨o, none⟩
+
 /-! ### how each object operation treats units -/
 
 inductive OpSym where
